@@ -13,7 +13,7 @@
 (* image and the complete stdout are compared.  A mismatch appends a       *)
 (* verdict and the state is resynchronised to what was logged.             *)
 (***************************************************************************)
-EXTENDS TraceCommon, Driver, Json, IOUtils
+EXTENDS TraceCommon, Driver, Asm, Json, IOUtils
 
 Rec == ndJsonDeserialize(IOEnv.TRACE)
 
@@ -34,7 +34,7 @@ NewRun(ev) ==
       C == Compile(P)
       L == Load(P)
       \* why the program must be refused with a diagnostic ("" = it must run)
-      refuse == IF L.over THEN "over" ELSE ""
+      refuse == IF ~WellFormed(P, L.labels) THEN "illformed" ELSE IF L.over THEN "over" ELSE ""
   IN [P |-> P, C |-> C, L |-> L, d |-> [Boot(P, C, L.mem) EXCEPT !.phase = "boot"], msg |-> << >>, n |-> ev.n,
       refuse |-> refuse]
 
